@@ -9,7 +9,7 @@ import trace
 from common import CheckError
 
 LEVEL = "exploration"
-KNOWN_ELLIPSOID = "ellipsoid:converged:gap>10eps:epsilon<=5e-8:warm-start<=1e-2"
+KNOWN_ELLIPSOID = "ellipsoid:converged:gap>10eps:epsilon<=1e-7:warm-start<=1e-2"
 SPECDIR = os.path.join(common.SPEC, "bundle")
 
 
@@ -49,7 +49,7 @@ def run(rep, tier):
         known = []
         for x in rs:
             if (x["e"] == "Sharp" and x["solver"] == "ellipsoid" and x["status"] == "converged" and not x["gapOK"]
-                    and x.get("eps_e12", 10 ** 9) <= 50000 and x.get("dist_e6", 4 * 10 ** 6) <= 10 ** 4):
+                    and x.get("eps_e12", 10 ** 9) <= 100000 and x.get("dist_e6", 4 * 10 ** 6) <= 10 ** 4):
                 known.append(dict(x))
                 x["gapOK"] = True
         # executions: a BInit starts a bundle history; Sharp records are independent
